@@ -179,6 +179,10 @@ func checkC03(tier string) *Report {
 				for _, m := range modes {
 					jobs = append(jobs, job{sh, []int{i}, m})
 				}
+				// the same single fault as a PANIC of the called module (what a third-party keeper does when it is
+				// reached with values it does not expect): whatever the middleware makes of it, it must not be a success
+				// or an unanswered packet with part of the transfer done
+				jobs = append(jobs, job{sh, []int{i}, "panic"})
 			}
 			for i := range sites {
 				if len(sh.Pre) > 0 {
@@ -261,6 +265,12 @@ func checkC03(tier string) *Report {
 			for _, s := range faultedSites {
 				siteSeen[s]++
 			}
+		}
+		if r.Panic != "" && jb.mode == "panic" {
+			// the injected panic propagated: the enclosing transaction aborts, nothing is committed — all-or-nothing
+			// holds (whether the receive path may abort the transaction at all is C14's subject)
+			rep.Outcome("injected-panic-propagated")
+			return
 		}
 		if r.Panic != "" {
 			rep.Outcome("panic")
